@@ -790,6 +790,11 @@ def auto_family(prop, tier, seed, mc_cfgs, gen_runs, directed, extra_rule):
             finally:
                 shutil.rmtree(d2, ignore_errors=True)
             if again and not autotrace.validate(again[0]["events"], "again")[0]:
+                # what only a gap in the environment model (kernel, fsnotify) explains is not the cache's fault: with an
+                # environment that may deliver any event at any time every snapshot must still be explained
+                if autotrace.validate(t["events"], "loose", loose_env=True)[0]:
+                    trace_stats["explained_only_by_the_loose_environment_model"] = trace_stats.get("explained_only_by_the_loose_environment_model", 0) + 1
+                    continue
                 k = autotrace.longest_prefix(t["events"], "bisect")
                 nxt = t["events"][k] if k < len(t["events"]) else None
                 trace_mism.append({"what": "recorded-execution-not-a-behaviour-of-the-specification", "props": [prop], "case": t["case"], "step": t["pacing"],
